@@ -23,6 +23,13 @@ def unesc(s):
     return "".join(out)
 
 
+NEXT_TEXT = "\n;;#next-text (the host does not call Clear())\n"
+
+
+def esc_keep(s):
+    return s.replace("\\", "\\\\").replace("\t", "\\t").replace("\n", "\\n")
+
+
 def iter_rows(cases, mout):
     with open(cases) as f, open(mout) as g:
         for lc, lm in zip(f, g):
@@ -110,6 +117,7 @@ def main(argv):
     fails = []          # (kind, src, detail dict)
     counts = {}
     rejected_unsupported = 0
+    hist_steps = 0
     if cases:
         mout = c.model(cases)
         if mout:
@@ -139,12 +147,34 @@ def main(argv):
                 elif kind == "O":
                     if impl != spec:
                         bad = "one at a time differs from together: " + impl
+                elif kind == "H":
+                    # history of texts never followed by Clear(): resident state after EVERY evaluation
+                    items = [x.strip() for x in inp.split("|")[1:]]
+                    iv, mv, sv = impl.split(" / "), model.split(" / "), spec.split(" / ")
+                    texts = unesc(src).split(NEXT_TEXT)
+                    hist_steps += len(iv)
+                    for i in range(len(iv)):
+                        it = items[i] if i < len(items) else "?"
+                        m = mv[i] if i < len(mv) else "-"
+                        sp = sv[i] if i < len(sv) else "-"
+                        what = None
+                        if not iv[i].startswith(sp.replace(";idle", "") + ";"):
+                            what = "after text %d of this history (fate %s) the interpreter holds %s (data,scope,addr,loop depth; pending instructions; parser) - expected %s" % (i + 1, it[:1], iv[i], sp)
+                        elif sp.endswith(";idle") and not re.match(r"^[^;]*;[^;]*;0,0,0,0,\d+$", iv[i]):
+                            what = "after the successful text %d the parser is not idle: %s" % (i + 1, iv[i])
+                        elif iv[i] != m:
+                            what = "resident state after text %d (fate %s): interpreter %s, model (exec_fate) %s" % (i + 1, it, iv[i], m)
+                        if what:
+                            src = esc_keep(NEXT_TEXT.join(texts[:i + 1]))
+                            bad = what
+                            break
                 if bad:
                     fails.append({"kind": kind, "input": inp[:2000], "implementation": impl, "model": model, "what": bad,
                                   "program": unesc(src), "symptom": symptom(kind, inp, impl, model)})
             c.coverage["lines_by_kind"] = counts
             c.coverage["traces_validated_against_impl"] = sum(counts.get(k, 0) for k in "TSCR")
             c.coverage["functions_rejected_unsupported"] = rejected_unsupported
+            c.coverage["resident_history_evaluations_compared"] = hist_steps
     # ---- attribute failures ----
     by_prog = {}
     for f in fails:
@@ -162,7 +192,7 @@ def main(argv):
                 continue
             rest.append(f)
         if rest:
-            if any(f["kind"] in "DNO" for f in rest):
+            if any(f["kind"] in "DNOH" for f in rest):
                 prop_level.append((prog, rest))
             else:
                 other.append((prog, rest))
@@ -173,10 +203,10 @@ def main(argv):
         if shown >= 5:
             break
         shown += 1
-        first = [f for f in fl if f["kind"] in "DNO"][0]
+        first = [f for f in fl if f["kind"] in "DNOH"][0]
         c.violation({"kind": "the interpreter is not at rest after a successful evaluation / stale value / one-by-one differs",
                      "program": prog, "observed": first["what"], "all_failures_of_this_program": [f["what"] for f in fl][:8],
-                     "replay": "fresh interpreter (NewZlisp+StandardSetup); EvalString(program); then env.VerifDepths() and EvalString(\"\"). A program that starts with '#api ctor=C pre=P loaders=L,..' is an API history: construct the interpreter (std = NewZlisp+StandardSetup, bare = NewZlisp, sandbox = NewZlispSandbox), bring it into state P (new | clear = Clear() | ran = after one EvalString | err = after a failed EvalString and Clear()), call the loaders in turn on the #piece texts, then Run() ONCE, Run() again on the idle interpreter, EvalString(\"\"). bin/check C04 --replay <this file> does exactly that."})
+                     "replay": "fresh interpreter (NewZlisp+StandardSetup); EvalString(program); then env.VerifDepths() and EvalString(\"\"). A program that starts with '#api ctor=C pre=P loaders=L,..' is an API history: construct the interpreter (std = NewZlisp+StandardSetup, bare = NewZlisp, sandbox = NewZlispSandbox), bring it into state P (new | clear = Clear() | ran = after one EvalString | err = after a failed EvalString and Clear()), call the loaders in turn on the #piece texts, then Run() ONCE, Run() again on the idle interpreter, EvalString(\"\"). bin/check C04 --replay <this file> does exactly that. A program with ';;#next-text' separator lines is a HISTORY: EvalString each text in turn on ONE interpreter, never calling Clear(), reading VerifDepths / pc / parser after each."})
     if not prop_level:
         shown = 0
         for prog, fl in sorted(other, key=lambda x: len(x[0])):
